@@ -18,15 +18,29 @@ use crate::report::{Acc, Check, Tier};
 use crate::util::{self, guard, Guard};
 use crate::world;
 
-/// Entry alphabet. A, B, C are the three keys of the family.
-pub const ENTRIES: [&str; 9] = ["vA", "vB", "vC", "iA", "mAB", "rA", "eA", "uA", "uB"];
+/// Entry alphabet of the standard families. A, B, C are the three keys of the family.
+pub const ENTRIES: [&str; 12] = ["vA", "vB", "vC", "iA", "mAB", "rA", "eA", "uA", "uB", "sA", "pA", "cA"];
+/// Entries that only occur in lists of length <= 3 in the quick tier.
+const LATE: usize = 7;
+
+pub struct Entry {
+    pub name: String,
+    pub sig: Signature,
+    /// index of the family key whose id the entry carries; >= 100: an id no key has
+    pub label: usize,
+    /// the value is a valid signature, over this block, by the key the entry is labelled with
+    pub valid: bool,
+}
 
 pub struct Family {
     pub name: &'static str,
-    pub keys: [&'static Key; 3],
+    pub keys: Vec<PublicKey>,
+    pub key_names: Vec<&'static str>,
+    /// key material behind each key: two keys with the same material are ONE key that was
+    /// loaded twice (other hash-algorithm list, other declared scheme) and so has two ids
+    pub mats: Vec<usize>,
     pub meta: MetadataWrapper,
-    /// one Signature per entry of ENTRIES
-    pub sigs: Vec<Signature>,
+    pub entries: Vec<Entry>,
 }
 
 fn sig_json(keyid: &str, sig_hex: &str) -> Signature {
@@ -37,55 +51,90 @@ fn sig_hex(s: &Signature) -> String {
     serde_json::to_value(s).unwrap()["sig"].as_str().unwrap().to_string()
 }
 
+fn the_meta() -> MetadataWrapper {
+    MetadataWrapper::Link(world::link("step", world::arts(&[("m", 1)]), world::arts(&[("p", 2)])))
+}
+
 pub fn family(name: &'static str, names: [&str; 3]) -> Family {
     let ks = [keys::get(names[0]), keys::get(names[1]), keys::get(names[2])];
-    let meta = MetadataWrapper::Link(world::link("step", world::arts(&[("m", 1)]), world::arts(&[("p", 2)])));
+    let meta = the_meta();
     let sign = |k: &Key| -> Signature { world::sign(meta.clone(), &[k]).signatures[0].clone() };
     let (va, vb, vc) = (sign(ks[0]), sign(ks[1]), sign(ks[2]));
     let ra = sign(ks[0]); // a second signature by A (different bytes for randomized schemes)
     let a_id = ks[0].id();
     let garbage = "00".repeat(sig_hex(&va).len() / 2);
-    let sigs = vec![
-        va.clone(),
-        vb.clone(),
-        vc,
-        sig_json(&a_id, &garbage),
-        sig_json(&a_id, &sig_hex(&vb)),
-        ra,
-        sig_json(&a_id, ""),
+    // a well-formed signature by A over other content (a stale signature)
+    let other = MetadataWrapper::Link(world::link("step", world::arts(&[("m", 1)]), world::arts(&[("p", 3)])));
+    let stale = world::sign(other, &[ks[0]]).signatures[0].clone();
+    let e = |n: &str, sig: Signature, label: usize, valid: bool| Entry { name: n.to_string(), sig, label, valid };
+    let entries = vec![
+        e("vA", va.clone(), 0, true),
+        e("vB", vb.clone(), 1, true),
+        e("vC", vc, 2, true),
+        e("iA", sig_json(&a_id, &garbage), 0, false),
+        e("mAB", sig_json(&a_id, &sig_hex(&vb)), 0, false),
+        e("rA", ra, 0, true),
+        e("eA", sig_json(&a_id, ""), 0, false),
         // valid signatures by A and by B, labelled with key ids nobody has
-        sig_json(&"f".repeat(64), &sig_hex(&va)),
-        sig_json(&"e".repeat(64), &sig_hex(&vb)),
+        e("uA", sig_json(&"f".repeat(64), &sig_hex(&va)), 100, false),
+        e("uB", sig_json(&"e".repeat(64), &sig_hex(&vb)), 101, false),
+        e("sA", sig_json(&a_id, &sig_hex(&stale)), 0, false),
+        // A's valid signature under ids that resemble A's: same first 8 characters; upper case
+        e("pA", sig_json(&format!("{}{}", &a_id[..8], "0".repeat(56)), &sig_hex(&va)), 102, false),
+        e("cA", sig_json(&a_id.to_uppercase(), &sig_hex(&va)), 103, false),
     ];
-    Family { name, keys: ks, meta, sigs }
+    assert_eq!(entries.iter().map(|x| x.name.as_str()).collect::<Vec<_>>(), ENTRIES.to_vec());
+    Family { name, keys: ks.iter().map(|k| k.public().clone()).collect(), key_names: vec!["A", "B", "C"], mats: vec![0, 1, 2], meta, entries }
 }
 
-/// Which key (0..3) an entry is labelled with, and whether its value is a
-/// valid signature by that key.
-fn entry_info(e: usize) -> (usize, bool) {
-    match ENTRIES[e] {
-        "vA" | "rA" => (0, true),
-        "vB" => (1, true),
-        "vC" => (2, true),
-        // labelled with an unknown id: belongs to no key (index 9 is never authorised)
-        "uA" | "uB" => (9, false),
-        _ => (0, false),
+/// One key loaded twice. Ed25519: `A` from PKCS#8 (hash-algorithm list [sha256, sha512]) and `A2`
+/// from the raw key pair (no list) - two ids, one key. RSA: one modulus declared PSS-SHA256 (`A`)
+/// and PSS-SHA512 (`A2`). `B` is an unrelated key.
+pub fn guise_family(name: &'static str) -> Family {
+    let meta = the_meta();
+    let sign = |k: &in_toto::crypto::PrivateKey| -> Signature { Metablock::new(meta.clone(), &[k]).expect("sign").signatures[0].clone() };
+    let id_of = |k: &PublicKey| -> String { serde_json::to_value(k.key_id()).unwrap().as_str().unwrap().to_string() };
+    let e = |n: &str, sig: Signature, label: usize, valid: bool| Entry { name: n.to_string(), sig, label, valid };
+    let (a, a2, b): (&in_toto::crypto::PrivateKey, in_toto::crypto::PrivateKey, &in_toto::crypto::PrivateKey) = if name == "guise-ed25519" {
+        (&keys::get("ed1").private, in_toto::crypto::PrivateKey::from_ed25519(keys::ED1_KEYPAIR).expect("ed1 key pair"), &keys::get("ed2").private)
+    } else {
+        (&keys::get("rsa256a").private, in_toto::crypto::PrivateKey::from_pkcs8(keys::RSA_PK8[0], in_toto::crypto::SignatureScheme::RsaSsaPssSha512).expect("rsa"), &keys::get("rsa256b").private)
+    };
+    let (ia, ia2) = (id_of(a.public()), id_of(a2.public()));
+    if ia == ia2 || a.public().as_bytes() != a2.public().as_bytes() {
+        util::machinery_error("C04: the two guises of one key must have one material and two ids");
     }
+    let (va, va2, vb) = (sign(a), sign(&a2), sign(b));
+    let same_scheme = name == "guise-ed25519";
+    let entries = vec![
+        e("vA", va.clone(), 0, true),
+        e("vA2", va2.clone(), 1, true),
+        e("vB", vb.clone(), 2, true),
+        // A's signature value under A2's id and the reverse: the same key made it, so it is valid
+        // whenever both guises use one scheme, and invalid when the declared schemes differ
+        e("vA@A2", sig_json(&ia2, &sig_hex(&va)), 1, same_scheme),
+        e("vA2@A", sig_json(&ia, &sig_hex(&va2)), 0, same_scheme),
+        e("vB@A2", sig_json(&ia2, &sig_hex(&vb)), 1, false),
+    ];
+    Family { name, keys: vec![a.public().clone(), a2.public().clone(), b.public().clone()], key_names: vec!["A", "A2", "B"], mats: vec![0, 0, 2], meta, entries }
 }
 
-/// Reference: the set of authorised keys with a valid entry in the list.
-fn counting(list: &[usize], auth: &[usize]) -> BTreeSet<usize> {
+/// Reference: the set of distinct keys (by material) that are authorised and have a valid
+/// entry in the list.
+fn counting(f: &Family, list: &[usize], auth: &[usize]) -> BTreeSet<usize> {
     list.iter()
-        .map(|e| entry_info(*e))
-        .filter(|(k, valid)| *valid && auth.contains(k))
-        .map(|(k, _)| k)
+        .map(|e| &f.entries[*e])
+        .filter(|e| e.valid && auth.contains(&e.label))
+        .map(|e| f.mats[e.label])
         .collect()
 }
 
-fn each_key_at_most_once(list: &[usize]) -> bool {
-    let ids: Vec<usize> = list.iter().map(|e| entry_info(*e).0).collect();
+/// "Each key signs at most once": no key id twice in the list, and no key (material) behind two ids.
+fn each_key_at_most_once(f: &Family, list: &[usize]) -> bool {
+    let ids: Vec<usize> = list.iter().map(|e| f.entries[*e].label).collect();
     let set: BTreeSet<usize> = ids.iter().copied().collect();
-    set.len() == ids.len()
+    let mats: BTreeSet<usize> = ids.iter().map(|l| if *l < 100 { f.mats[*l] } else { *l }).collect();
+    set.len() == ids.len() && mats.len() == ids.len()
 }
 
 pub const THRESHOLDS: [u32; 5] = [0, 1, 2, 3, u32::MAX];
@@ -98,8 +147,8 @@ enum Res {
 }
 
 fn run_verify(f: &Family, list: &[usize], auth: &[usize], t: u32, perm: usize) -> (Res, usize) {
-    let block = Metablock { signatures: list.iter().map(|e| f.sigs[*e].clone()).collect(), metadata: f.meta.clone() };
-    let auth_keys: Vec<&PublicKey> = auth.iter().map(|i| f.keys[*i].public()).collect();
+    let block = Metablock { signatures: list.iter().map(|e| f.entries[*e].sig.clone()).collect(), metadata: f.meta.clone() };
+    let auth_keys: Vec<&PublicKey> = auth.iter().map(|i| &f.keys[*i]).collect();
     verif_hooks::install(Driver { permute: true, script: vec![perm], ..Driver::default() });
     let r = guard(|| block.verify(t, auth_keys));
     let drv = verif_hooks::uninstall().unwrap_or_default();
@@ -122,29 +171,39 @@ fn fact(n: usize) -> usize {
 fn case_json(f: &Family, list: &[usize], auth: &[usize], t: u32) -> Value {
     json!({
         "family": f.name,
-        "signatures": list.iter().map(|e| ENTRIES[*e]).collect::<Vec<_>>(),
-        "authorized": auth.iter().map(|i| ["A", "B", "C"][*i]).collect::<Vec<_>>(),
+        "signatures": list.iter().map(|e| f.entries[*e].name.clone()).collect::<Vec<_>>(),
+        "authorized": auth.iter().map(|i| f.key_names[*i]).collect::<Vec<_>>(),
         "threshold": t,
     })
 }
 
-fn reason(list: &[usize], auth: &[usize]) -> String {
+fn reason(f: &Family, list: &[usize], auth: &[usize]) -> String {
     let mut r = BTreeSet::new();
     let mut seen_valid = BTreeSet::new();
+    let mut seen_mats = BTreeSet::new();
     for e in list {
-        let (k, valid) = entry_info(*e);
-        if k == 9 {
-            r.insert("signature-under-unknown-key-id");
+        let en = &f.entries[*e];
+        let (k, valid) = (en.label, en.valid);
+        if k >= 100 {
+            r.insert(match en.name.as_str() {
+                "pA" => "signature-under-id-sharing-a-prefix",
+                "cA" => "signature-under-upper-case-id",
+                _ => "signature-under-unknown-key-id",
+            });
         } else if !auth.contains(&k) {
             r.insert("unauthorized-key");
         } else if !valid {
-            r.insert(match ENTRIES[*e] {
-                "mAB" => "mislabeled-signature",
+            r.insert(match en.name.as_str() {
+                "mAB" | "vB@A2" => "mislabeled-signature",
                 "eA" => "empty-signature",
+                "sA" => "signature-over-other-content",
+                "vA@A2" | "vA2@A" => "signature-made-under-the-other-scheme",
                 _ => "invalid-signature",
             });
         } else if !seen_valid.insert(k) {
             r.insert("repeated-signature-by-one-key");
+        } else if !seen_mats.insert(f.mats[k]) {
+            r.insert("one-key-under-two-ids");
         }
     }
     let auth_set: BTreeSet<usize> = auth.iter().copied().collect();
@@ -159,9 +218,9 @@ fn reason(list: &[usize], auth: &[usize]) -> String {
 }
 
 fn check_case(acc: &mut Acc, f: &Family, list: &[usize], auth: &[usize], t: u32) {
-    let count = counting(list, auth).len() as u64;
+    let count = counting(f, list, auth).len() as u64;
     let must_reject = t < 1 || count < t as u64;
-    let must_accept = !must_reject && each_key_at_most_once(list);
+    let must_accept = !must_reject && each_key_at_most_once(f, list);
     let mut outcomes = BTreeSet::new();
     let mut perm = 0;
     loop {
@@ -180,7 +239,7 @@ fn check_case(acc: &mut Acc, f: &Family, list: &[usize], auth: &[usize], t: u32)
                     while i < small.len() {
                         let mut cand = small.clone();
                         cand.remove(i);
-                        let c2 = counting(&cand, auth).len() as u64;
+                        let c2 = counting(f, &cand, auth).len() as u64;
                         let rej = t < 1 || c2 < t as u64;
                         if rej && matches!(run_verify(f, &cand, auth, t, 0).0, Res::Ok(_)) {
                             small = cand;
@@ -191,7 +250,7 @@ fn check_case(acc: &mut Acc, f: &Family, list: &[usize], auth: &[usize], t: u32)
                     let key = if t < 1 {
                         "accepted:threshold-zero".to_string()
                     } else {
-                        format!("accepted:count-below-threshold:{}", reason(&small, auth))
+                        format!("accepted:count-below-threshold:{}", reason(f, &small, auth))
                     };
                     acc.violation(&key, &format!("verify succeeded with threshold {t} although only {count} distinct authorised keys have a valid signature ({key})"), || case_json(f, &small, auth, t));
                 }
@@ -237,12 +296,24 @@ fn auth_sequences(max: usize) -> Vec<Vec<usize>> {
     v
 }
 
-fn lists(max: usize) -> Vec<Vec<usize>> {
+fn lists(n_entries: usize, max: usize) -> Vec<Vec<usize>> {
     let mut v = vec![];
     for len in 0..=max {
-        v.extend(util::sequences(ENTRIES.len(), len));
+        v.extend(util::sequences(n_entries, len));
     }
     v
+}
+
+fn family_by_name(name: &str) -> Family {
+    match name {
+        "ecdsa-p256" => family("ecdsa-p256", ["ec1", "ec2", "ec3"]),
+        "rsa-pss-sha256" => family("rsa-pss-sha256", ["rsa256a", "rsa256b", "rsa256c"]),
+        "rsa-pss-sha512" => family("rsa-pss-sha512", ["rsa512a", "rsa256b", "rsa512c"]),
+        "mixed" => family("mixed", ["ed1", "ec1", "rsa256a"]),
+        "guise-ed25519" => guise_family("guise-ed25519"),
+        "guise-rsa" => guise_family("guise-rsa"),
+        _ => family("ed25519", ["ed1", "ed2", "ed3"]),
+    }
 }
 
 pub fn run(tier: Tier) -> i32 {
@@ -250,26 +321,30 @@ pub fn run(tier: Tier) -> i32 {
     let full = if tier.thorough() { 5 } else { 4 };
     let reduced = if tier.thorough() { 4 } else { 3 };
     let fams: Vec<(Family, usize)> = vec![
-        (family("ed25519", ["ed1", "ed2", "ed3"]), full),
-        (family("ecdsa-p256", ["ec1", "ec2", "ec3"]), reduced),
-        (family("rsa-pss-sha256", ["rsa256a", "rsa256b", "rsa256c"]), reduced),
-        (family("rsa-pss-sha512", ["rsa512a", "rsa256b", "rsa512c"]), reduced),
-        (family("mixed", ["ed1", "ec1", "rsa256a"]), reduced),
+        (family_by_name("ed25519"), full),
+        (family_by_name("ecdsa-p256"), reduced),
+        (family_by_name("rsa-pss-sha256"), reduced),
+        (family_by_name("rsa-pss-sha512"), reduced),
+        (family_by_name("mixed"), reduced),
+        (family_by_name("guise-ed25519"), full),
+        (family_by_name("guise-rsa"), reduced + 1),
     ];
     // self-test: randomized schemes give two different valid signatures (rA != vA)
-    let differ = sig_hex(&fams[1].0.sigs[0]) != sig_hex(&fams[1].0.sigs[5]);
+    let differ = sig_hex(&fams[1].0.entries[0].sig) != sig_hex(&fams[1].0.entries[5].sig);
     c.selftest("ecdsa-resignature-differs", differ, "rA equals vA for ECDSA");
     let auths = auth_sequences(3);
     let mut acc = Acc::new();
     let mut bounds = vec![];
     for (f, maxlen) in &fams {
-        // quick tier: the two unknown-key-id entries only in lists of length <= 3
-        let ls: Vec<Vec<usize>> = lists(*maxlen).into_iter().filter(|l| tier.thorough() || l.len() < 4 || l.iter().all(|e| *e < 7)).collect();
+        // quick tier: the entries from LATE on (unknown / look-alike key ids, stale signature)
+        // only in lists of length <= 3
+        let standard = f.entries.len() == ENTRIES.len();
+        let ls: Vec<Vec<usize>> = lists(f.entries.len(), *maxlen).into_iter().filter(|l| !standard || tier.thorough() || l.len() < 4 || l.iter().all(|e| *e < LATE)).collect();
         bounds.push(format!("{}: lists <= {maxlen} ({} lists)", f.name, ls.len()));
         let accs = util::par_fold(&ls, Acc::new, |acc, i, list| {
             acc.states += 1;
             acc.transitions += if list.is_empty() { 0 } else { 1 };
-            let nontrivial = list.iter().any(|e| !entry_info(*e).1) || !each_key_at_most_once(list);
+            let nontrivial = list.iter().any(|e| !f.entries[*e].valid) || !each_key_at_most_once(f, list);
             if nontrivial {
                 acc.nontrivial += 1;
             }
@@ -285,29 +360,24 @@ pub fn run(tier: Tier) -> i32 {
         acc.merge(Acc::merge_all(accs));
     }
     c.acc = acc;
-    c.rule = "state = signature list (sequence over {valid by A/B/C, garbage labelled A, B's signature relabelled A, second valid signature by A, empty labelled A, A's / B's valid signature under an unknown key id}); transition = append one entry; each state is verified for every authorised sequence over {A,B,C} of length <= 3 (with duplicates, and empty) x thresholds {0,1,2,3,u32::MAX} x every iteration order of the internal signature map; non-trivial = list with an invalid entry or a repeated key id".into();
+    c.rule = "state = signature list (sequence over {valid by A/B/C, garbage labelled A, B's signature relabelled A, second valid signature by A, empty labelled A, A's / B's valid signature under an unknown key id, A's signature over other content, A's valid signature under an id sharing A's first 8 characters / under A's id in upper case}); transition = append one entry; each state is verified for every authorised sequence over {A,B,C} of length <= 3 (with duplicates, and empty) x thresholds {0,1,2,3,u32::MAX} x every iteration order of the internal signature map; two more families have ONE key loaded twice (A, A2: Ed25519 with / without a hash-algorithm list; one RSA modulus declared PSS-SHA256 / PSS-SHA512) next to an unrelated B, with each guise's signature under its own and under the other guise's id: distinct keys are counted by key material; non-trivial = list with an invalid entry, a repeated key id or one key under two ids".into();
     c.bound_completed = bounds.join("; ");
     c.assume("ring's verification primitives are a trusted black box; three fixed keys per family");
-    c.assume("sufficiency is only demanded when every key id occurs at most once in the list (as the statement says)");
+    c.assume("sufficiency is only demanded when every key id occurs at most once in the list and no key appears under two ids (as the statement says: each key signs at most once)");
+    c.assume("two PublicKey values over the same key material are one key");
     c.finish()
 }
 
 pub fn replay(case: &Value) -> Value {
-    let fam = match case["family"].as_str().unwrap_or("ed25519") {
-        "ecdsa-p256" => family("ecdsa-p256", ["ec1", "ec2", "ec3"]),
-        "rsa-pss-sha256" => family("rsa-pss-sha256", ["rsa256a", "rsa256b", "rsa256c"]),
-        "rsa-pss-sha512" => family("rsa-pss-sha512", ["rsa512a", "rsa256b", "rsa512c"]),
-        "mixed" => family("mixed", ["ed1", "ec1", "rsa256a"]),
-        _ => family("ed25519", ["ed1", "ed2", "ed3"]),
-    };
-    let list: Vec<usize> = case["signatures"].as_array().map(|a| a.iter().filter_map(|x| ENTRIES.iter().position(|e| Some(*e) == x.as_str())).collect()).unwrap_or_default();
-    let auth: Vec<usize> = case["authorized"].as_array().map(|a| a.iter().filter_map(|x| ["A", "B", "C"].iter().position(|e| Some(*e) == x.as_str())).collect()).unwrap_or_default();
+    let fam = family_by_name(case["family"].as_str().unwrap_or("ed25519"));
+    let list: Vec<usize> = case["signatures"].as_array().map(|a| a.iter().filter_map(|x| fam.entries.iter().position(|e| Some(e.name.as_str()) == x.as_str())).collect()).unwrap_or_default();
+    let auth: Vec<usize> = case["authorized"].as_array().map(|a| a.iter().filter_map(|x| fam.key_names.iter().position(|e| Some(*e) == x.as_str())).collect()).unwrap_or_default();
     let t = case["threshold"].as_u64().unwrap_or(0) as u32;
     let mut acc = Acc::new();
     check_case(&mut acc, &fam, &list, &auth, t);
     json!({
         "result_default_order": format!("{:?}", run_verify(&fam, &list, &auth, t, 0).0),
-        "distinct_valid_authorized": counting(&list, &auth).len(),
+        "distinct_valid_authorized": counting(&fam, &list, &auth).len(),
         "violation": acc.violations.keys().next(),
     })
 }
